@@ -116,6 +116,11 @@ def run(ctx):
         if has_loop_controls:
             ctx.floor("C05.B2 child-compilation sites inside an open scope" + tag, open_sites, 4)
             # Break / Continue handlers
+            # the Break / Continue arms are read through helpers of the generator that are not code generation entry
+            # points themselves (`self.innermost_loop_mut()`)
+            cs0 = cs
+            cs = prog.view(COMPILE_STMT, keep=lambda t: not t.startswith(GEN + "::") or t.split("::")[-1].startswith(
+                ("compile_", "add", "start_", "end_", "close_scopes", "set_line", "push_span", "pop_span", "next_instruction", "sc_bool")))
             sw = arms.enum_switches(prog, cs, STMT)
             ctx.need(sw, "C05.B2: compile_stmt dispatch not found")
             regs = arms.arm_regions(prog, cs, sw[0][0], STMT)
